@@ -410,7 +410,9 @@ def ref_expand(program):
         sh, k = US_CHARS[ch]
         out = list(to_mods)
         if sh:
-            out.append('RIGHTSHIFT' if 'RIGHTSHIFT' in from_keys else 'LEFTSHIFT')
+            s_ = 'RIGHTSHIFT' if 'RIGHTSHIFT' in from_keys else 'LEFTSHIFT'
+            if s_ not in out:
+                out.append(s_)      # the Shift the character needs, unless the output already holds it
         out.append(k)
         return out
     blocks = []
@@ -792,3 +794,330 @@ def check_c13(tier, seed):
     rc = oc.report()
     write_evidence('C13', tier, seed, cov, ['the hand-written expansion and its US-QWERTY table are the oracle', 'JSON text -> Value is serde_json (dependency)'], time.time() - t0, len(oc.violations))
     return rc
+
+
+# =========================================================================== C14: reject or run, never panic
+KEYSTR = ['A', 'B', 'LEFTSHIFT', 'RIGHTSHIFT', '1', 'NOTAKEY', '', 'a']
+MODSTR = ['LEFTSHIFT', 'CAPSLOCK', '@shift', '@undefined', 'A', 'NOTAKEY']
+ROWSTR = ['A', 'q', '`', '1', 'X', '']
+LETTERS = ['ab', 'a B?', '', ' ', 'abcdefghijklmno', 'é', '?A', 'a\u0000b']
+JUNK = [None, 5, True, {}, {'row': 5}, {'row': 'A', 'extra': 1}, [[]], {'letters': 5}, {'x': 'y'}, 2.5]
+
+
+class G:
+    """structure-aware grammar of layout files; every choice is a fork of the exploration"""
+
+    def __init__(self, it):
+        self.it = it
+        self.nnum = 0
+
+    def pick(self, xs):
+        return xs[self.it.choose(len(xs))]
+
+    def num(self):
+        k = self.pick(['sym', 'float', 'big'] if self.nnum % 2 == 0 else ['sym', 'neg'])
+        if k == 'sym':
+            self.nnum += 1
+            return z3.BitVec('num%d' % self.nnum, 64)
+        return {'float': 2.5, 'big': (1 << 64) - 1, 'neg': -(1 << 63)}[k]
+
+    def from_(self, stage):
+        k = self.pick(['key', 'arr0', 'arr', 'arr-dup', 'row', 'arr-row', 'junk'] if stage != 'alias' else ['key', 'arr', 'arr-dup', 'arr-alias'])
+        if k == 'key':
+            return self.pick(KEYSTR)
+        if k == 'arr0':
+            return []
+        if k == 'arr':
+            return [self.pick(MODSTR), self.pick(KEYSTR[:5])]
+        if k == 'arr-dup':
+            x = self.pick(['A', 'LEFTSHIFT', '@shift'])
+            return [x, x] if self.it.choose(2) == 0 else [x, 'B', x]
+        if k == 'arr-alias':
+            return ['@shift', 'A']
+        if k == 'row':
+            return {'row': self.pick(ROWSTR)}
+        if k == 'arr-row':
+            return [self.pick(MODSTR), {'row': self.pick(ROWSTR[:4])}]
+        return self.pick(JUNK)
+
+    def to(self, stage):
+        k = self.pick(['key', 'alias', 'arr0', 'arr', 'arr-dup', 'arr-alias-end', 'letters', 'arr-letters', 'junk'])
+        if k == 'key':
+            return self.pick(KEYSTR)
+        if k == 'alias':
+            return self.pick(['@shift', '@x', '@'])
+        if k == 'arr0':
+            return []
+        if k == 'arr':
+            return [self.pick(MODSTR), self.pick(KEYSTR[:5])]
+        if k == 'arr-dup':
+            x = self.pick(['A', 'LEFTSHIFT', '@shift'])
+            return [x, x]
+        if k == 'arr-alias-end':
+            return [self.pick(['LEFTCTRL', '@shift', 'NOTAKEY', 5]), '@x']
+        if k == 'letters':
+            return {'letters': self.pick(LETTERS)}
+        if k == 'arr-letters':
+            return [self.pick(MODSTR[:4]), {'letters': self.pick(LETTERS[:5])}]
+        return self.pick(JUNK)
+
+    def repeat(self):
+        k = self.pick(['Normal', 'disabled', 'junkstr', 'special', 'special-row', 'special-missing', 'special-junk', 'special-extra', 'junk'])
+        if k in ('Normal', 'disabled'):
+            return k
+        if k == 'junkstr':
+            return 'sometimes'
+        if k == 'special':
+            return {'Special': {'keys': self.pick(['F21', ['LEFTCTRL', 'C'], [], ['C', 'C'], '@shift', ['@shift', 'C'], 5, {'letters': 'a'}]),
+                                'delay_ms': self.num(), 'interval_ms': self.num()}}
+        if k == 'special-row':
+            return {'Special': {'keys': self.pick([{'letters': 'a'}, {'letters': 'abc'}, ['@shift', {'letters': 'A b'}], 'F21', []]), 'delay_ms': 180, 'interval_ms': 30}}
+        if k == 'special-missing':
+            d = {'keys': 'F21', 'delay_ms': 180, 'interval_ms': 30}
+            d.pop(self.pick(['keys', 'delay_ms', 'interval_ms']))
+            return {'Special': d}
+        if k == 'special-junk':
+            return {'Special': self.pick([5, [], 'x', None])}
+        if k == 'special-extra':
+            return {'Special': {'keys': 'F21', 'delay_ms': 180, 'interval_ms': 30}, 'Other': 1}
+        return self.pick(JUNK[:6])
+
+    def absorbing(self):
+        k = self.pick(['mod', 'arr', 'arr2', 'junk'])
+        if k == 'mod':
+            return self.pick(MODSTR)
+        if k == 'arr':
+            return [self.pick(MODSTR)]
+        if k == 'arr2':
+            return ['LEFTSHIFT', self.pick(['LEFTSHIFT', '@shift', 5])]
+        return self.pick(JUNK[:5])
+
+    def program(self, stage):
+        alias_defs = [{'from': 'LEFTSHIFT', 'to': '@shift'}, {'from': 'RIGHTSHIFT', 'to': '@shift'}]
+        if stage == 'root':
+            return self.pick([{}, {'mappings': 5}, {'mappings': []}, {'mappings': [5]}, {'mappings': [[]]}, {'mappings': [{}]}, [], 'x', None, 7, True,
+                              {'mappings': [], 'extra': 1}, {'Mappings': []}, {'mappings': [{'from': 'A'}]}, {'mappings': [{'to': 'A'}]},
+                              {'mappings': [{'from': 'A', 'to': 'B', 'extra': 1}]}, {'mappings': [{'from': 'A', 'repeat': 'Disabled', 'absorbing': []}]}])
+        if stage == 'from-to':
+            return {'mappings': alias_defs + [{'from': self.from_(stage), 'to': self.to(stage)}]}
+        if stage == 'from-repeat':
+            m = {'from': self.pick(['A', ['@shift', 'A'], {'row': 'A'}, ['CAPSLOCK', {'row': 'q'}], [], 5]), 'repeat': self.repeat()}
+            if self.it.choose(2) == 0:
+                m['to'] = self.pick(['B', {'letters': 'ab'}, [], '@x'])
+            return {'mappings': alias_defs + [m]}
+        if stage == 'absorbing':
+            return {'mappings': alias_defs + [{'from': self.pick([['LEFTSHIFT', 'A'], ['@shift', 'A'], 'A', ['@shift', {'row': 'A'}], ['CAPSLOCK', 'LEFTSHIFT', 'A']]),
+                                              'to': self.pick(['B', {'letters': 'ab'}, '@x']), 'absorbing': self.absorbing()}]}
+        if stage == 'alias':
+            return {'mappings': [{'from': self.from_('alias'), 'to': self.pick(['@shift', ['LEFTCTRL', '@shift'], ['@shift', '@shift'], ['LEFTCTRL', 'LEFTCTRL', '@shift']])},
+                                 {'from': self.pick([['@shift', 'X'], ['@shift', '@shift', 'X'], ['@other', 'X'], 'X']), 'to': self.pick(['Y', ['@shift', 'Y'], ['@other', 'Y']])}] +
+                    ([{'from': ['@shift', 'X'], 'repeat': self.pick(['Disabled', {'Special': {'keys': ['@shift', 'F21'], 'delay_ms': 1, 'interval_ms': 1}}])}] if self.it.choose(2) == 0 else [])}
+        if stage == 'rows':
+            return {'mappings': alias_defs + [{'from': [self.pick(['@shift', 'RIGHTSHIFT', 'CAPSLOCK']), {'row': self.pick(ROWSTR[:4])}],
+                                              'to': [self.pick(['@shift', 'LEFTSHIFT', 'RIGHTSHIFT', 'LEFTCTRL']), {'letters': self.pick(['a?', 'A', '~!', 'ab cd', '"'])}],
+                                              'repeat': self.pick(['Normal', {'Special': {'keys': {'letters': self.pick(['?', 'a', ' b'])}, 'delay_ms': 0, 'interval_ms': 0}}])}]}
+        raise ValueError(stage)
+
+
+C14_STAGES = ['root', 'from-to', 'from-repeat', 'absorbing', 'alias', 'rows']
+
+
+def check_c14(tier, seed):
+    t0 = time.time()
+    prog = load_program()
+    native = Native()
+    setup(prog, native)
+    oc = Outcome('C14')
+    rng = random.Random(seed)
+    stats = {'paths': 0, 'accepted': 0, 'rejected': 0, 'panics': 0, 'mir_steps': 0}
+    viols = []
+    accepted = {}
+    samples = []
+    from . import parexplore
+    for stage in C14_STAGES:
+        n0 = stats['paths']
+        outs, npaths, steps, z3c = parexplore.run('mirsym.convcheck', 'c14_path', (stage,), 'c14_summary', cut_at=2)
+        stats['paths'] += npaths
+        stats['mir_steps'] += steps
+        for kind, st, program, lay in outs:
+            if kind == 'ok':
+                stats[st] += 1
+                if st == 'accepted':
+                    key = json.dumps(lay, sort_keys=True, default=str)
+                    if key not in accepted:
+                        accepted[key] = (program, lay)
+                elif len(samples) < 4 and (stats['rejected'] % 97) == 0:
+                    samples.append({'stage': stage, 'program': program, 'outcome': 'rejected with a message'})
+            elif kind == 'panic':
+                stats['panics'] += 1
+                viols.append((stage, st, program))
+            elif kind == 'unsupported':
+                oc.inconclusive.append('unsupported construct on a grammar path: %s' % st)
+            else:
+                viols.append((stage, st, program))
+        log('[C14] stage %-12s %5d paths (%.1fs)' % (stage, stats['paths'] - n0, time.time() - t0))
+    # accepted layouts: drive the real mapper with every history (N=2) and watch for panics
+    import multiprocessing as mp
+    lays = list(accepted.values())
+    rng.shuffle(lays)
+    cap = 24 if tier == 'quick' else 200
+    lays = lays[:cap]
+    specs = []
+    for i, (program, lay) in enumerate(lays):
+        maps = corpus.native_layout(lay)
+        specs.append(mapper.Spec('accepted/%d' % i, maps, N=2, depth=6 if tier == 'quick' else 9))
+    roots = {}
+    root_nodes = {}
+    for i, spec in enumerate(specs):
+        try:
+            rs = mapper.make_root(spec, ())
+        except Unsupported as e:
+            # for_layout panicked on it: already recorded above as a violation
+            continue
+        roots[i] = (spec, rs[0][0])
+        root_nodes[i] = rs[0][1]
+    mstats = {'layouts': 0, 'states': 0, 'paths': 0}
+    if roots:
+        pool = mp.Pool(int(os.environ.get('VERIF_JOBS', '16')), initializer=mapper._w_init, initargs=(None, roots, {'seed': seed, 'ra': True, 'sample_rate': 0.0}))
+        try:
+            for i in roots:
+                res = mapper.explore_spec(pool, roots[i][0], i, root_nodes[i], deadline=time.time() + 60)
+                mstats['layouts'] += 1
+                mstats['states'] += res.states
+                mstats['paths'] += res.paths
+                for v in res.viols:
+                    if v[0] == 'PANIC':
+                        c = mapper.concretise(roots[i][0], v[3], v[4])
+                        viols.append(('mapper', v[1], {'program': lays[i][0], 'ops': c[1] if c else None, 'layout': lays[i][1]}))
+        finally:
+            pool.terminate()
+    log('[C14] %d accepted layouts driven through the mapper: %d states, %d paths' % (mstats['layouts'], mstats['states'], mstats['paths']))
+    # panics of the mapper on the layouts of the shared mapper exploration (built-in, README, unit-test layouts, templates;
+    # N=3/4): same cache as C01-C09/C19
+    from . import mapper_run
+    md = mapper_run.get_results(tier, seed)
+    for v in md['per_prop'].get('PANIC', {}).get('violations', []):
+        oc.violations.append(('mapper panic', v['desc'], v['case']))
+    for u in md['per_prop'].get('PANIC', {}).get('unconfirmed', []):
+        oc.inconclusive.append('ENGINE-MISMATCH (symbolic mapper panic not reproduced natively): ' + u)
+    mstats['shared_mapper_exploration'] = {'layouts': len(md['layouts']), 'states': sum(l['states'] for l in md['layouts']), 'cache_hit': md.get('cache_hit', False)}
+    # native confirmation
+    seen = {}
+    for stage, what, program in viols:
+        role = 'duplicate key' if 'Duplicate key' in what else what.split(':')[0][:50]
+        if seen.get((stage, role), 0) >= 2:
+            continue
+        seen[(stage, role)] = seen.get((stage, role), 0) + 1
+        if stage == 'mapper':
+            info = program
+            r = native.ask({'kind': 'mapper', 'layout': info['layout'], 'ops': info['ops']})
+            case = {'kind': 'mapper', 'layout': info['layout'], 'ops': info['ops'], 'program': info['program'], 'property': 'C14'}
+            if 'panic' in r:
+                oc.violations.append((role, 'accepted layout %s panics in the mapper on %r: %s' % (json.dumps(info['program']), info['ops'], r['panic']), case))
+            else:
+                oc.inconclusive.append('ENGINE-MISMATCH: mapper panic not reproduced natively: %s' % what)
+            continue
+        if program is None:
+            oc.inconclusive.append('symbolic panic without a program: ' + what)
+            continue
+        r = native.ask({'kind': 'load_and_install', 'value': program})
+        case = {'kind': 'load_and_install', 'value': program, 'property': 'C14', 'what': what}
+        if 'panic' in r:
+            oc.violations.append((role, 'layout file %s: %s' % (json.dumps(program), r['panic']), case))
+        else:
+            oc.inconclusive.append('ENGINE-MISMATCH (symbolic panic not reproduced natively): %s on %s -> %r' % (what, json.dumps(program), str(r)[:200]))
+    # differential validation: a sample of programs through MIR vs natively (accept / reject must agree)
+    validated = 0
+    for key, (program, lay) in list(accepted.items())[:20]:
+        r = native.ask({'kind': 'load_value', 'value': program})
+        validated += 1
+        if 'ok' not in r or r['ok'].get('layout') != lay:
+            oc.inconclusive.append('model/native disagreement on accepted program %s: %r vs %r' % (json.dumps(program), lay, str(r)[:300]))
+            break
+    for s in samples:
+        r = native.ask({'kind': 'load_value', 'value': s['program']})
+        validated += 1
+        if 'ok' not in r or 'rejected' not in r['ok']:
+            oc.inconclusive.append('model/native disagreement: %s is rejected symbolically but natively %r' % (json.dumps(s['program']), str(r)[:200]))
+            break
+    native.close()
+    cov = {
+        'explanation': 'parse_layout_from_json -> convert -> Mapper::for_layout executed from MIR on serde_json::Value trees enumerated from a structure-aware grammar (wrong types, missing/extra fields, empty arrays, repeated keys, '
+                       'undefined/misplaced aliases, over-long rows, unknown characters) with symbolic 64-bit numbers; a path ending in a panic is a violation; every distinct accepted layout (up to a cap) is then driven through the real '
+                       'mapper with symbolic key histories (N=2) watching for panics',
+        'evaluations': stats['paths'], 'distinct_nontrivial': stats['paths'],
+        'rule': 'one evaluation = one path = one grammar derivation (x solver-decided class of the symbolic numbers); derivations are distinct by construction',
+        'samples': samples + [{'accepted_program': p, 'basic_layout': l} for p, l in list(accepted.values())[:2]],
+        'paths': stats['paths'], 'accepted': stats['accepted'], 'rejected': stats['rejected'], 'panicking_paths': stats['panics'],
+        'distinct_accepted_layouts': len(accepted), 'accepted_layouts_driven_through_mapper': mstats, 'mir_statements_executed': stats['mir_steps'],
+        'traces_validated_against_impl': validated,
+        'functions_encoded': ['parse_layout_from_json and callees', 'convert and callees', 'Mapper::for_layout, make_hashed_layout', 'Mapper::step / release_all and callees'],
+        'bounds': 'stages %r; <= 3 source mappings per file; strings from fixed pools; numbers symbolic i64 / float / u64::MAX / i64::MIN; mapper histories with <= 2 keys held, depth <= 6 (quick) / 9; '
+                  'outside: bytes -> Value (serde_json\'s parser is dependency code), file I/O errors, main.rs argument handling' % (C14_STAGES,),
+    }
+    rc = oc.report()
+    write_evidence('C14', tier, seed, cov, ['the claim starts at serde_json::Value (arbitrary bytes are parsed by serde_json, a dependency)'], time.time() - t0, len(oc.violations))
+    return rc
+
+
+def _concretise_nums(it, lay):
+    zm = it.model() if it.solver is not None else None
+
+    def num(x):
+        if isinstance(x, (int, float)) or x is None or isinstance(x, str):
+            return x
+        if zm is not None:
+            v = zm.eval(x, model_completion=True).as_long()
+            bits = x.size()
+            return v - (1 << bits) if v >= (1 << (bits - 1)) else v
+        return 0
+    out = []
+    for m in lay:
+        r = m['repeat']
+        if isinstance(r, dict):
+            r = {'keys': r['keys'], 'delay_ms': num(r['delay_ms']), 'interval_ms': num(r['interval_ms'])}
+        out.append(dict(m, repeat=r))
+    return out
+
+
+def _concretise_prog(it, program):
+    if program is None:
+        return None
+    zm = it.model() if it.solver is not None else None
+
+    def rec(x):
+        if isinstance(x, dict):
+            return {k: rec(v) for k, v in x.items()}
+        if isinstance(x, list):
+            return [rec(v) for v in x]
+        if z3.is_expr(x):
+            if zm is None:
+                return 0
+            v = zm.eval(x, model_completion=True).as_long()
+            return v - (1 << 64) if v >= (1 << 63) else v
+        return x
+    return rec(program)
+
+
+def c14_path(it, stage):
+    g = G(it)
+    program = g.program(stage)
+    it._program = program
+    value = value_of(program)
+    st, res = load_value(it, value)
+    if st != 'ok':
+        return ('rejected', program, None)
+    lay = layout_to_py(it, res)
+    it.run(mapper.F_FOR_LAYOUT, [Ref(Cell(res))])      # install in the mapper: the real Mapper::for_layout
+    return ('accepted', program, lay)
+
+
+def c14_summary(it, res):
+    kind, payload = res
+    program = _concretise_prog(it, getattr(it, '_program', None))
+    if kind == 'ok':
+        st, _, lay = payload
+        return ('ok', st, program, _concretise_nums(it, lay) if lay is not None else None)
+    if kind == 'viol':
+        return ('viol', payload[0], program, None)
+    return (kind, payload, program, None)
